@@ -9,4 +9,4 @@ Extraction "extracted/tsparse/model.ml" Byte.of_N Byte.to_N
   setup_env cmd_env getenv setenv ts_parse ts_step expand os_expand expand_key quote_meta
   child_env child_lookup dedup_env pwd_key sq join_sp in_quote_after utf8_ok re_literal
   ts_sep_bytes ts_quote do_cmd_cmp c02_holds_on
-  script_lines_tr run_script hstep hrun hcmd_of_line env_listing.
+  script_lines_tr run_script hstep hrun hcmd_of_line env_listing history_holds hstate_eqb.
